@@ -90,6 +90,10 @@ pub struct FaultCfg {
     pub errno_broken: u64,
     /// max injected errnos per run
     pub errno_budget: u64,
+    /// per-mille probability that a cooperative fault point (`inject_errno`: the workers'
+    /// epoll_wait) fails with EINTR instead of being issued; at most `eintr_budget` per run
+    pub point_eintr: u64,
+    pub eintr_budget: u64,
     /// inject only on sockets with one of these labels (empty = all)
     pub only: Vec<&'static str>,
 }
@@ -128,6 +132,7 @@ pub struct State {
     fd_labels: HashMap<RawFd, String>,
     pub faults: FaultCfg,
     errno_used: u64,
+    eintr_used: u64,
     pub fault_fired: BTreeMap<&'static str, u64>,
     pub probes: BTreeMap<&'static str, u64>,
     pub prop: String,
@@ -544,6 +549,7 @@ impl Sim {
             fd_labels: HashMap::new(),
             faults: FaultCfg::default(),
             errno_used: 0,
+            eintr_used: 0,
             fault_fired: BTreeMap::new(),
             probes: BTreeMap::new(),
             prop: prop.to_string(),
@@ -948,6 +954,24 @@ unsafe fn hook_recv(sock: &UnixStream, iovs: &mut [iovec], fds: &mut [RawFd]) ->
     res
 }
 
+/// Cooperative fault points of the library ("buggify"): a system call that is allowed to fail
+/// with EINTR does so when the fault tape says so.
+fn inject_errno(label: &'static str) -> Option<i32> {
+    let (sh, id) = with_me(|sh, id| (sh.clone(), id))?;
+    let mut st = sh.lock();
+    let fc = st.faults.clone();
+    if fc.point_eintr == 0 || st.eintr_used >= fc.eintr_budget {
+        return None;
+    }
+    if st.f.chance(fc.point_eintr, 1000) {
+        st.eintr_used += 1;
+        st.fired("epoll_wait_eintr");
+        st.ev(id, &format!("{label} -> injected EINTR"));
+        return Some(libc::EINTR);
+    }
+    None
+}
+
 static HOOKS: vhost::verif::Hooks = vhost::verif::Hooks {
     is_task,
     point,
@@ -958,6 +982,7 @@ static HOOKS: vhost::verif::Hooks = vhost::verif::Hooks {
     thread_spawned,
     thread_enter,
     before_join,
+    inject_errno,
 };
 
 pub fn install_hooks() {
